@@ -1,9 +1,13 @@
-(* C09 property theorems: statements pinned here, proofs in LexProofs.v *)
-From KV.lex Require Import LexBase GenLexTables LexModel.
+(* C09 — Lexing is lossless and positions are exact.
+   ONLY the pinned statements live here; every proof is `exact <lemma of LexProofs>`.
+   The statements quantify over ALL input strings and ALL Unicode oracles
+   satisfying the one stated hypothesis. *)
+From KV.lex Require Import LexBase GenLexTables LexModel LexSpec LexProofs.
 Open Scope N_scope.
 
 Definition no_linebreak (s : list cp) : bool := forallb (fun c => negb ((c =? LF) || (c =? CR))) s.
 
+(* --- table theorems: re-proved against the tables regenerated from lexer.rs on every run --- *)
 Theorem symbols_no_linebreak : forallb (fun e => no_linebreak (fst e)) symbols = true.
 Proof. vm_compute. reflexivity. Qed.
 Print Assumptions symbols_no_linebreak.
@@ -11,3 +15,80 @@ Print Assumptions symbols_no_linebreak.
 Theorem keywords_no_linebreak : forallb (fun e => no_linebreak (fst e)) keywords = true.
 Proof. vm_compute. reflexivity. Qed.
 Print Assumptions keywords_no_linebreak.
+
+Theorem whitespace_no_linebreak : no_linebreak whitespace_chars = true.
+Proof. vm_compute. reflexivity. Qed.
+Print Assumptions whitespace_no_linebreak.
+
+Section C09.
+  (* Unicode oracles: arbitrary, except that a line feed is not an identifier character *)
+  Variable width : cp -> N.
+  Variable xid_start xid_continue : cp -> bool.
+  Variable grapheme_len : list cp -> nat.
+  Hypothesis xid_continue_lf : xid_continue LF = false.
+
+  Let lexs (s : list cp) := fst (lex width xid_start xid_continue grapheme_len s).
+  Let toks (s : list cp) := before_first_error (lexs s).
+
+  (* T1 the tokens up to the first error cover the input contiguously from its start *)
+  Theorem lex_tiles : forall s, contiguous 0 (toks s).
+  Proof. exact (LexProofs.lex_tiles width xid_start xid_continue grapheme_len xid_continue_lf). Qed.
+
+  (* T2 every such token starts and ends on a character boundary of the input *)
+  Theorem lex_boundaries : forall s t, In t (toks s) -> on_boundaries s t.
+  Proof. exact (LexProofs.lex_boundaries width xid_start xid_continue grapheme_len xid_continue_lf). Qed.
+
+  (* T3 reported start / end lines = number of line breaks before those points *)
+  Theorem lex_lines : forall s t, In t (toks s) -> lines_exact s t.
+  Proof. exact (LexProofs.lex_lines width xid_start xid_continue grapheme_len xid_continue_lf). Qed.
+
+  (* T4 columns restart at zero after each line break *)
+  Theorem lex_col_reset : forall s t, In t (toks s) -> col_reset s t.
+  Proof. exact (LexProofs.lex_col_reset width xid_start xid_continue grapheme_len xid_continue_lf). Qed.
+
+  (* T5 indentation = leading whitespace of the token's line, outside known finding C09b *)
+  Theorem lex_indent : forall s i t,
+      nth_error (toks s) i = Some t ->
+      nth_error (clean_flags (toks s) true) i = Some true ->
+      indent_exact s t.
+  Proof. exact (LexProofs.lex_indent width xid_start xid_continue grapheme_len xid_continue_lf). Qed.
+
+  (* T6 producing the token stream terminates: the fuel of `lex` always suffices
+     (the model has no panic outcome: it is total by construction) *)
+  Theorem lex_total : forall s, snd (lex width xid_start xid_continue grapheme_len s) = FaultNone.
+  Proof. exact (LexProofs.lex_total width xid_start xid_continue grapheme_len xid_continue_lf). Qed.
+End C09.
+
+Print Assumptions lex_tiles.
+Print Assumptions lex_boundaries.
+Print Assumptions lex_lines.
+Print Assumptions lex_col_reset.
+Print Assumptions lex_indent.
+Print Assumptions lex_total.
+
+(* --- non-vacuity and the known finding, on the executable instance --- *)
+From KV.lex Require Import LexRun.
+
+(* "  #- a\n-# x": the token `x` (index 3) is in class C09b and violates indent_exact *)
+Definition w_c09b : list cp := [32; 32; 35; 45; 32; 97; 10; 45; 35; 32; 120].
+
+Example c09b_in_class :
+  nth_error (clean_flags (before_first_error (fst (run_lex [] w_c09b))) true) 3 = Some false.
+Proof. vm_compute. reflexivity. Qed.
+
+Example c09b_refuted :
+  exists t, nth_error (before_first_error (fst (run_lex [] w_c09b))) 3 = Some t /\
+            t_indent t = 2 /\
+            leading_ws (after_last_nl [32; 32; 35; 45; 32; 97; 10; 45; 35; 32] [] ++ [120]) = 0.
+Proof. eexists. split; [vm_compute; reflexivity|]. split; vm_compute; reflexivity. Qed.
+
+(* a string exercising every lexer mode satisfies the hypotheses of lex_indent at every token *)
+Definition w_modes : list cp :=
+  (* x = "a{y:*<3}b" r#'c'# # d\n  #- e -# 1.5e3 else if _z\n *)
+  [120; 32; 61; 32; 34; 97; 123; 121; 58; 42; 60; 51; 125; 98; 34; 32; 114; 35; 39; 99; 39; 35; 32; 35; 32; 100; 10;
+   32; 32; 35; 45; 32; 101; 32; 45; 35; 32; 49; 46; 53; 101; 51; 32; 101; 108; 115; 101; 32; 105; 102; 32; 95; 122; 10].
+
+Example modes_all_clean :
+  forallb (fun b => b) (clean_flags (before_first_error (fst (run_lex [] w_modes))) true) = true
+  /\ length (before_first_error (fst (run_lex [] w_modes))) = 33%nat.
+Proof. vm_compute. split; reflexivity. Qed.
